@@ -21,8 +21,10 @@ VERIF = os.path.dirname(os.path.dirname(os.path.abspath(__file__)))
 REPO = os.environ.get('E2P_REPO', '/repo')
 LEAN_DIR = os.path.join(VERIF, 'lean')
 DRIVER = os.path.join(LEAN_DIR, '.lake', 'build', 'bin', 'e2pdrv')
-EVIDENCE_DIR = os.path.join(VERIF, 'evidence')
-REPLAY_DIR = os.path.join(VERIF, 'replays')
+# runs against another tree (E2P_REPO set: seeded changes, the pre-repair snapshot) never touch the committed evidence
+_ALT = REPO != '/repo'
+EVIDENCE_DIR = os.path.join(VERIF, 'evidence') if not _ALT else '/tmp/e2p_alt/evidence'
+REPLAY_DIR = os.path.join(VERIF, 'replays') if not _ALT else '/tmp/e2p_alt/replays'
 KNOWN_FINDINGS = os.path.join(VERIF, 'known_findings.txt')
 GUARD = 'E2PYCL_VERIF'
 
